@@ -986,3 +986,4 @@ ASSUMPTIONS = ('lists are modelled by value: a list that escapes (is yielded) is
                'functions under contract are executed by CPython as pyvc\'s documented subset semantics says')
 
 SCENARIOS = [('', 'replay/scenarios/c03_ops.py')]
+THOROUGH_SCENARIOS = [('', 'replay/scenarios/c03_ops.py', (s,), 300) for s in (1, 2, 3, 4, 5)]
